@@ -525,9 +525,13 @@ func report(p *Program, prop, tier string, seed int, runs []*funcRun, pin, verbo
 		"wall_s":      time.Since(t0).Seconds(),
 		"violations":  violations,
 	}
-	os.MkdirAll(filepath.Join(verifDir, "evidence"), 0o755)
-	data, _ := json.MarshalIndent(ev, "", " ")
-	os.WriteFile(filepath.Join(verifDir, "evidence", prop+".json"), data, 0o644)
+	// the corpus runners (selftest, seeded changes) run the check against a deliberately
+	// changed tree: their runs must not overwrite the evidence of the real tree
+	if os.Getenv("VERIF_NO_EVIDENCE") == "" {
+		os.MkdirAll(filepath.Join(verifDir, "evidence"), 0o755)
+		data, _ := json.MarshalIndent(ev, "", " ")
+		os.WriteFile(filepath.Join(verifDir, "evidence", prop+".json"), data, 0o644)
+	}
 	fmt.Printf("%s: %d/%d claimed obligations discharged (%d pinned groups, %d generated, %d functions, load %.1fs, total %.1fs)\n", prop, discharged, claimed, len(pinnedGroups), len(names), len(funcs), loadS, time.Since(t0).Seconds())
 	if verbose {
 		for _, n := range names {
